@@ -44,6 +44,41 @@ theorem pg_zero (c s : Expr) : pg 0 c s = s := by simp [pg]
 
 theorem bopPrec_le (op : BOp) : bopPrec op ≤ 16 := by cases op <;> simp [bopPrec]
 
+theorem addShow_eq_none (e : Expr) : addShow e = .none ↔ e = .none := by
+  cases e <;> simp [addShow]
+
+theorem pg_ne_none (p : Nat) (c : Expr) (h : c ≠ .none) : pg p c (addShow c) ≠ .none := by
+  unfold pg; split
+  · simp
+  · intro h'; exact h ((addShow_eq_none c).mp h')
+
+theorem pgOpt_none (p : Nat) (s : Expr) : pgOpt p .none s = .none := by simp [pgOpt]
+theorem pgOpt_some (p : Nat) (c s : Expr) (h : c ≠ .none) : pgOpt p c s = pg p c s := by simp [pgOpt, h]
+
+theorem pgOpt_idem (p : Nat) (c : Expr) (hp : p ≤ 16) (ih : c ≠ .none → addShow (addShow c) = addShow c) :
+    pgOpt p (pgOpt p c (addShow c)) (addShow (pgOpt p c (addShow c))) = pgOpt p c (addShow c) := by
+  by_cases hc : c = .none
+  · subst hc; simp [pgOpt]
+  · rw [pgOpt_some p c _ hc, pgOpt_some p _ _ (pg_ne_none p c hc)]
+    exact pg_idem p c hp (ih hc)
+
+theorem addShow_lv (t : Expr) (h : t.isLValue = true) : (addShow t).isLValue = true := by
+  cases t <;> simp [Expr.isLValue] at h <;> simp [addShow, Expr.isLValue]
+
+/-- the parts of a canonical getline form -/
+theorem canon_getline_parts (pc : Bool) (k : Nat) (c t f : Expr) (h : canon pc k (.getline c t f) = true) :
+    (t = .none ∨ (t.isLValue = true ∧ canon false 14 t = true)) ∧
+    ((c = .none ∧ k ≤ 7 ∧ (f = .none ∨ canon false 14 f = true)) ∨
+     (c ≠ .none ∧ f = .none ∧ k ≤ 1 ∧ pc = false ∧ canon false 3 c = true)) := by
+  simp only [canon, Bool.and_eq_true, Bool.or_eq_true, beq_iff_eq] at h
+  refine ⟨h.1, ?_⟩
+  have h2 := h.2
+  by_cases hcn : c = .none
+  · simp only [hcn, if_true, Bool.and_eq_true, decide_eq_true_eq, Bool.or_eq_true, beq_iff_eq] at h2
+    exact Or.inl ⟨hcn, h2.1, h2.2⟩
+  · simp only [hcn, if_false, Bool.and_eq_true, decide_eq_true_eq, beq_iff_eq, Bool.not_eq_true'] at h2
+    exact Or.inr ⟨hcn, h2.1.1.1, h2.1.1.2, h2.1.2, h2.2⟩
+
 /-- the operand of `++`/`--` in a canonical tree is an lvalue that `primary()` reads -/
 theorem canon_incr_arg (pc : Bool) (k : Nat) (p d : Bool) (e : Expr) (h : canon pc k (.incr p d e) = true) :
     e.isLValue = true ∧ canon false 14 e = true := by
@@ -88,7 +123,25 @@ theorem addShow_idem (e : Expr) (pc : Bool) (k : Nat) (hc : canon pc k e = true)
     simp only [canon, Bool.and_eq_true] at hc
     simp only [addShow, ih _ _ hc.2]
   | none => simp [canon] at hc
-  | getline c t f _ _ _ => simp [canon] at hc
+  | getline c t f ihc iht ihf =>
+    obtain ⟨ht, hcf⟩ := canon_getline_parts pc k c t f hc
+    have hT : addShow (addShow t) = addShow t := by
+      rcases ht with rfl | ht
+      · rfl
+      · exact iht _ _ ht.2
+    have hC : c ≠ .none → addShow (addShow c) = addShow c := by
+      intro hcn
+      rcases hcf with h | h
+      · exact absurd h.1 hcn
+      · exact ihc _ _ h.2.2.2.2
+    have hF : f ≠ .none → addShow (addShow f) = addShow f := by
+      intro hfn
+      rcases hcf with h | h
+      · rcases h.2.2 with h' | h'
+        · exact absurd h' hfn
+        · exact ihf _ _ h'
+      · exact absurd h.2.1 hfn
+    simp only [addShow, hT, pgOpt_idem 15 c (by omega) hC, pgOpt_idem 15 f (by omega) hF]
 
 theorem showE_eq_render (e : Expr) (pc : Bool) (k : Nat) (hc : canon pc k e = true) : showE e = render (addShow e) := by
   induction e generalizing pc k with
@@ -127,7 +180,35 @@ theorem showE_eq_render (e : Expr) (pc : Bool) (k : Nat) (hc : canon pc k e = tr
     simp only [canon, Bool.and_eq_true] at hc
     simp only [showE, addShow, render, ih _ _ hc.2]
   | none => simp [canon] at hc
-  | getline c t f _ _ _ => simp [canon] at hc
+  | getline c t f ihc iht ihf =>
+    obtain ⟨ht, hcf⟩ := canon_getline_parts pc k c t f hc
+    have hT : showE t = render (addShow t) := by
+      rcases ht with rfl | ht
+      · rfl
+      · exact iht _ _ ht.2
+    have hC : (if c = Expr.none then [] else parenT c (.getline c t f) (showE c) ++ [Tok.pipe]) =
+        (if pgOpt 15 c (addShow c) = Expr.none then [] else render (pgOpt 15 c (addShow c)) ++ [Tok.pipe]) := by
+      by_cases hcn : c = .none
+      · simp [hcn, pgOpt_none]
+      · have hcc : canon false 3 c = true := by
+          rcases hcf with h | h
+          · exact absurd h.1 hcn
+          · exact h.2.2.2.2
+        rw [pgOpt_some 15 c _ hcn]
+        simp only [hcn, if_false, pg_ne_none 15 c hcn, pg_render 15 (.getline c t f) c rfl (ihc _ _ hcc)]
+    have hF : (if f = Expr.none then [] else Tok.cmp Cmp.lt :: parenT f (.getline c t f) (showE f)) =
+        (if pgOpt 15 f (addShow f) = Expr.none then [] else Tok.cmp Cmp.lt :: render (pgOpt 15 f (addShow f))) := by
+      by_cases hfn : f = .none
+      · simp [hfn, pgOpt_none]
+      · have hfc : canon false 14 f = true := by
+          rcases hcf with h | h
+          · rcases h.2.2 with h' | h'
+            · exact absurd h' hfn
+            · exact h'
+          · exact absurd h.2.1 hfn
+        rw [pgOpt_some 15 f _ hfn]
+        simp only [hfn, if_false, pg_ne_none 15 f hfn, pg_render 15 (.getline c t f) f rfl (ihf _ _ hfc)]
+    simp only [showE, addShow, render, hT, hC, hF]
 
 theorem canon_false_of_true (e : Expr) : ∀ k, canon true k e = true → canon false k e = true := by
   induction e with
@@ -165,7 +246,12 @@ theorem canon_false_of_true (e : Expr) : ∀ k, canon true k e = true → canon 
     · simpa [canon] using h
   | field e _ => intro k h; simpa [canon] using h
   | index a i _ => intro k h; simpa [canon] using h
-  | getline c t f _ _ _ => intro k h; simp [canon] at h
+  | getline c t f _ _ _ =>
+    intro k h
+    obtain ⟨ht, hcf⟩ := canon_getline_parts true k c t f h
+    rcases hcf with h' | h'
+    · simpa [canon, h'.1] using h
+    · exact absurd h'.2.2.2.1 (by simp)
 
 theorem canon_false (pc : Bool) (k : Nat) (e : Expr) (h : canon pc k e = true) : canon false k e = true := by
   cases pc
@@ -195,6 +281,7 @@ def firstTok : Expr → Tok
   | .incr pre dec e => if pre then (if dec then Tok.decr else Tok.incr) else firstTok e
   | .field _ => .dollar
   | .index a _ => .name a
+  | .getline c _ _ => if c = .none then .getline else firstTok c
   | _ => .eof
 
 theorem render_first (e : Expr) : ∀ (pc : Bool) (k : Nat), canon pc k e = true → ∃ ts, render e = firstTok e :: ts := by
@@ -234,7 +321,14 @@ theorem render_first (e : Expr) : ∀ (pc : Bool) (k : Nat), canon pc k e = true
   | field e _ => intros; exact ⟨_, rfl⟩
   | index a i _ => intros; exact ⟨_, rfl⟩
   | none => intro pc k hc; simp [canon] at hc
-  | getline c t f _ _ _ => intro pc k hc; simp [canon] at hc
+  | getline c t f ihc _ _ =>
+    intro pc k hc
+    obtain ⟨_, hcf⟩ := canon_getline_parts pc k c t f hc
+    rcases hcf with h | h
+    · obtain ⟨rfl, _⟩ := h
+      exact ⟨render t ++ fileToks f, by rw [render_getline_none]; simp [firstTok]⟩
+    · obtain ⟨ts, h1⟩ := ihc false 3 h.2.2.2.2
+      exact ⟨ts ++ (.pipe :: .getline :: (render t ++ fileToks f)), by rw [render_getline_cmd c t f h.1, h1]; simp [firstTok, h.1]⟩
 
 theorem hd_render_first (e : Expr) (pc : Bool) (k : Nat) (hc : canon pc k e = true) : hd (render e) = firstTok e := by
   obtain ⟨ts, h⟩ := render_first e pc k hc
@@ -258,6 +352,13 @@ theorem firstTok_addShow (e : Expr) : firstTok (addShow e) = firstTok e ∨ firs
     cases p
     · simpa using firstTok_pg _ e ih
     · left; rfl
+  | getline c t f ihc _ _ =>
+    simp only [addShow, firstTok]
+    by_cases hcn : c = .none
+    · left; simp [hcn, pgOpt_none]
+    · rw [pgOpt_some 15 c _ hcn]
+      simp only [hcn, if_false, pg_ne_none 15 c hcn]
+      exact firstTok_pg 15 c ihc
   | _ => left; simp [addShow, firstTok]
 
 theorem startOk_lparen : startOk .lparen = true := rfl
@@ -349,6 +450,28 @@ theorem canon_addShow (e : Expr) : ∀ pc k, canon pc k e = true → canon pc k 
     simp only [addShow, canon, Bool.and_eq_true] at h ⊢
     exact ⟨h.1, ih _ _ h.2⟩
   | none => intro pc k h; simp [canon] at h
-  | getline c t f _ _ _ => intro pc k h; simp [canon] at h
+  | getline c t f ihc iht ihf =>
+    intro pc k h
+    obtain ⟨ht, hcf⟩ := canon_getline_parts pc k c t f h
+    have hT : (addShow t == Expr.none || ((addShow t).isLValue && canon false 14 (addShow t))) = true := by
+      rcases ht with rfl | ht
+      · simp [addShow]
+      · simp [addShow_lv t ht.1, iht _ _ ht.2]
+    simp only [addShow, canon, Bool.and_eq_true]
+    refine ⟨hT, ?_⟩
+    rcases hcf with h' | h'
+    · obtain ⟨rfl, hk, hf⟩ := h'
+      simp only [pgOpt_none, beq_self_eq_true, if_true, Bool.and_eq_true, decide_eq_true_eq, Bool.or_eq_true, beq_iff_eq]
+      refine ⟨hk, ?_⟩
+      by_cases hfn : f = .none
+      · left; simp [hfn, pgOpt_none]
+      · right
+        rw [pgOpt_some 15 f _ hfn]
+        exact canon_pg false 14 15 f (by omega) (by omega) (hf.resolve_left hfn) ihf
+    · obtain ⟨hcn, rfl, hk, rfl, hcc⟩ := h'
+      rw [pgOpt_some 15 c _ hcn]
+      simp only [beq_iff_eq, pg_ne_none 15 c hcn, if_false, pgOpt_none, beq_self_eq_true, Bool.and_eq_true, decide_eq_true_eq,
+        Bool.not_false, true_and, and_true]
+      exact ⟨hk, canon_pg false 3 15 c (by omega) (by omega) hcc ihc⟩
 
 end GoawkModel.C20
